@@ -27,7 +27,7 @@ PreOK(pre, X1, X) ==
 \* C09
 FaInclFails(e) ==
   LET A == ToNfa(e.A)  B == ToNfa(e.B)
-  IN Why(e.res.v = TF(FAIncl(A, B)), e.sel) \cup Why(Unchanged(e), "operand-changed")
+  IN Why(e.res.v = TF(IF Has(e, "swap") THEN FAIncl(B, A) ELSE FAIncl(A, B)), e.sel) \cup Why(Unchanged(e), "operand-changed")
 
 \* C10
 FaOpFails(e) ==
